@@ -1,4 +1,4 @@
-import DrummerVerif.Lemmas.C01H
+import DrummerVerif.Lemmas.C01E
 /-! Non-vacuity of `one_round_heals_the_detected_member`: a concrete closed-loop state that meets every hypothesis - three
     NodeHosts, one shard of three members; member 101 crashed with its NodeHost a1 (which is back, holds the data, has
     reported its logs) and is classified failed, the other two are running and healthy - and the scheduler context
@@ -104,6 +104,31 @@ theorem heals : ∃ h3, (tl2.execute "a1").host? "a1" = some h3 ∧ (h3.run? 1).
     tview (by simp [tl, tdb]) r1 classes.1 classes.2.2.1 classes.2.2.2
     tdef (by simp [tl, tdb]) rfl s1 rfl (by decide) (by decide)
     h1 rfl rfl 0 rfl tl2 1 rfl false tl4 0 rfl).1
+
+theorem ctxOnce : CtxOnce tdb tcx := { toCtxFull := ctxFull, once := by simp [tcx] }
+
+/-- ... and of `crashed_member_is_healed_again`: after the round, the report, the execution and the next report the fleet
+    is settled and every member of the shard is running -/
+theorem healedAgain : tl4.Settled ∧ tl4.AllRunning :=
+  crashed_member_is_healed_again tl settled
+    (by intro c hc c' hc' _; simp [tl, tdb] at hc hc'; rw [hc, hc'])
+    tcx ctxOnce [] [] trs rfl tdb' 1 rfl
+    (by intro c hc; simp [tl, tdb] at hc; subst hc; intro r hr; simp [tview] at hr; rcases hr with rfl | rfl | rfl <;> rfl)
+    tview (by simp [tl, tdb]) r1 classes.1 classes.2.2.1 classes.2.2.2
+    (by intro c' hc' hne; simp [tl, tdb] at hc'; exact absurd hc' hne)
+    tdef (by simp [tl, tdb]) rfl s1 rfl (by decide) (by decide)
+    h1 rfl rfl rfl tg rfl (by simp [tg]) rfl
+    (by
+      intro g' hg' p hp
+      simp [tl] at hg'
+      subst hg'
+      simp [tg, Group.cur, tm] at hp
+      rcases hp with rfl | rfl | rfl
+      · exact Or.inl ⟨rfl, rfl⟩
+      · exact Or.inr ⟨by decide, h2, rfl, rfl, ⟨1, 102, 0⟩, rfl, rfl⟩
+      · exact Or.inr ⟨by decide, h3, rfl, rfl, ⟨1, 103, 0⟩, rfl, rfl⟩)
+    tl2 1 rfl false tl4 0 rfl
+#print axioms healedAgain
 
 example : trs.length = 1 := by decide
 #print axioms heals
